@@ -38,7 +38,7 @@ MANIFEST = {
     "technique": "model checking by exhaustive small-scope enumeration of expression trees on the real visitor, CPython ast as oracle",
 }
 
-SLOTS = ["value", "annotation", "param-default", "param-annotation", "returns", "decorator", "base"]
+SLOTS = ["value", "annotation", "param-default", "param-annotation", "returns", "decorator", "base", "class-decorator"]
 ANN_SLOTS = {"annotation", "param-annotation", "returns"}
 
 
@@ -67,6 +67,8 @@ def _module_for(expr_text, slots):
         lines.append(f"@{e}\ndef g(): ...")
     if "base" in slots:
         lines.append(f"class K({e}): ...")
+    if "class-decorator" in slots:
+        lines.append(f"@{e}\nclass KD: ...")
     return "\n".join(lines) + "\n"
 
 
@@ -87,6 +89,9 @@ def _stored(mod, slot):
     if slot == "base":
         b = mod.members["K"].bases
         return b[0] if b else None
+    if slot == "class-decorator":
+        d = mod.members["KD"].decorators
+        return d[0].value if d else None
     raise AssertionError(slot)
 
 
@@ -372,7 +377,7 @@ def _run_strings(griffe, acc):
                 body = {
                     "value": f"x = {src_ann}", "annotation": f"y: {src_ann} = 0", "param-default": f"def f(p={src_ann}): ...",
                     "param-annotation": f"def f(p: {src_ann}): ...", "returns": f"def f(p) -> {src_ann}: ...",
-                    "decorator": f"@({src_ann})\ndef g(): ...", "base": f"class K({src_ann}): ...",
+                    "decorator": f"@({src_ann})\ndef g(): ...", "base": f"class K({src_ann}): ...", "class-decorator": f"@({src_ann})\nclass KD: ...",
                 }[slot]
                 # the module on its own, and as a submodule of a package whose __init__ has the OPPOSITE setting (postponed evaluation is per module)
                 for where in ("top-level", "in-package-with-opposite-setting"):
